@@ -88,4 +88,7 @@ InsBytes(ins) == LET RECURSIVE S(_) S(i) == IF i = 0 THEN 0 ELSE S(i - 1) + Line
 ShiftPos(st, at, dl, db, b, l, c) ==
   IF l >= at THEN <<b + db, l + dl, c>> ELSE <<b, l, c>>
 
+\* Appending lines after the last line (at = Len(buf) + 1): nothing that was in the buffer moves, except that the end
+\* of the buffer - a position AT the insertion point - is now the end of the last appended line.
+EofPos(buf) == <<BufLen(buf), Len(buf), Len(buf[Len(buf)]) + 1>>
 =============================================================================
